@@ -411,7 +411,8 @@ PROPS["C17"] = {
              "an externally loaded copy of the shipped files; for malformed annotations only JSON-vs-YAML equality per entry point; the "
              "none, NOP and nil schemas must accept every object document through every entry point; the package-level functions "
              "(ValidateData, ValidateFile, ValidateReader, ReadAndValidate, Get()) are run after schema.Set of builtin / nil / external / "
-             "none / nil in a rotating order and must give the verdict of the active schema (a previous choice must not leak); sentinels: builtin rejects {} and "
+             "none / nil in a rotating order and must give the verdict of the active schema (a previous choice must not leak), while every schema object (builtin, external, none, NOP, nil) "
+             "keeps validating in-memory Specs with itself whatever the active schema is; sentinels: builtin rejects {} and "
              "'devices: 3'. large unit: documents of 0.5 MiB, 1 MiB -/+ 4 KiB (thorough: 2.5 and 6 MiB), as many devices or one long string, "
              "valid / invalid in the last device / invalid root member, through the same entry points. Non-trivial iff the document is invalid by exactly one mutation, or has an integer beyond 2^53 or a number outside float64, or is an "
              "unmutated valid document; distinct = distinct document trees."),
@@ -437,7 +438,7 @@ PROPS["C17"] = {
 PROPS["C18"] = {
     "level": "exploration",
     "rule": ("Library-valid Specs from the shared generator (all optional members, <= 3 devices, numeric extremes of every integer field, hook "
-             "timeouts in {0, 1, 30, 2^31-1, 2^32-1}, hostile strings in 3 of 4 cases). Oracle: precondition - with no validator installed "
+             "timeouts in {0, 1, 30, 2^31-1, 2^32-1}, hostile strings in 3 of 4 cases, the declared version with a leading 'v' in 1 of 8). Oracle: precondition - with no validator installed "
              "WriteSpec accepts the Spec (otherwise the run is undecided: generator bug) - and the files it wrote must then load again; "
              "then schema.BuiltinSchema().Validate(spec) "
              "must be nil, and with cdi.SetSpecValidator(BuiltinSchema()) installed WriteSpec to .json and .yaml, ReadSpec of both, "
@@ -468,6 +469,7 @@ PROPS["C19"] = {
     "rule": ("cdi unit: a generated layout (1..4 directories, in one layout of four some may be missing - the library then reports "
              "directory-level errors too -, repeats and other spellings of one path allowed, with valid / invalid / "
              "ignored entries, shadowing and conflicts; Specs carry hooks, device nodes, mounts, GIDs, RDT) "
+             "and in one layout of three a Spec that only the schema refuses (hook timeout -1) "
              "is passed as '-d a,b' or as repeated --spec-dirs, with --schema builtin / none / default; 1..3 drawn sub-commands per layout "
              "among devices, devices -v -o json|yaml, vendors, classes, specs, dirs, validate, inject <oci file json|yaml> <1..3 glob "
              "patterns, incl. backslash escapes and character classes> -o json|yaml. Oracle (differential): an in-process cache with default options over the same directories with the "
